@@ -245,3 +245,83 @@ class ClientNotify:
                 and member(doc, 'jsonrpc') == '2.0' and same(member(doc, 'method'), method)
                 and is_absent(member(doc, 'id')) and same(ev_args(b)[1], True)
                 and args_or_kwargs_wire(doc, args, kwargs))
+
+
+# ------------------------------------------------------------------------------------------------ C07: batch notation (add / notify)
+from spec.prims import seq_concat, seq_same, dup_in, dict_eq
+
+
+def carries(r, args, kwargs):
+    """the request's parameters are the positional arguments if any, else the named ones, else there are none (an empty
+    tuple and an empty dict are the same on the wire: no params member)"""
+    if len(args) > 0:
+        return seq_same(r._params, args)
+    if len(kwargs) > 0:
+        return dict_eq(r._params, kwargs)
+    return r._params is None or len(r._params) == 0
+
+
+def batch_ok(b):
+    """what BaseBatch.__init__ establishes: a strict BatchRequest being filled, an id iterator, the default request class"""
+    return (isinstance(b._requests, BatchRequest) and class_is(b._requests, BatchRequest)
+            and b._client.request_class is Request and has_type(b._id_gen, '=UserIdIter')
+            and isinstance(b._requests._requests, list))
+
+
+from pjrpc.common.v20 import BatchRequest, Request
+from spec.prims import has_type
+
+
+@contract('pjrpc.client.client:BaseBatch.add', props=['C07'])
+class BatchAdd:
+    """C07 (batch notation): batch.add(method, *args, **kwargs) / batch(method, ...) appends ONE call request carrying the
+    method name, the positional arguments if any else the named ones, and the NEXT id of the batch's id iterator"""
+    types = {'self': 'pjrpc.client.client:BaseBatch', 'method': 'str', 'args': '=tuple', 'kwargs': '=dict'}
+    raises_only = ('AssertionError', 'pjrpc.common.exceptions:IdentityError')
+    modifies = ('$trace', 'self._requests._ids', '$seq(self._requests._requests)')
+    cross_check = False
+
+    def requires_batch(self, method, args, kwargs):
+        return batch_ok(self)
+
+    def raises_AssertionError_iff(self, method, args, kwargs):
+        return len(args) > 0 and len(kwargs) > 0          # positional and named arguments are mutually exclusive
+
+    def ensures_on_AssertionError(self, method, args, kwargs, exc):
+        return tlen() == old(tlen()) and seq_same(self._requests._requests, old(tuple(self._requests._requests)))
+
+    def ensures_appended(self, method, args, kwargs, result):
+        rs = self._requests._requests
+        n0 = old(len(self._requests._requests))
+        if not (same(result, self) and len(rs) == n0 + 1 and tlen() == old(tlen()) + 1
+                and seq_same(rs, seq_concat(old(tuple(self._requests._requests)), (rs[n0],)))):
+            return False
+        r = rs[n0]
+        return (class_is(r, Request) and same(r._method, method) and same(r._id, ev_value(old(tlen())))
+                and ev_kind(old(tlen())) == 'call:__next__' and same(ev_callee(old(tlen())), self._id_gen)
+                and carries(r, args, kwargs))
+
+
+@contract('pjrpc.client.client:BaseBatch.notify', props=['C07'])
+class BatchNotify:
+    """... and batch.notify(...) appends ONE notification (no id taken from the iterator)"""
+    types = {'self': 'pjrpc.client.client:BaseBatch', 'method': 'str', 'args': '=tuple', 'kwargs': '=dict'}
+    raises_only = ('AssertionError', 'pjrpc.common.exceptions:IdentityError')   # (dup_in is uninterpreted: cannot be excluded)
+    modifies = ('$seq(self._requests._requests)', 'self._requests._ids')
+    cross_check = False
+
+    def requires_batch(self, method, args, kwargs):
+        return batch_ok(self)
+
+    def raises_AssertionError_iff(self, method, args, kwargs):
+        return len(args) > 0 and len(kwargs) > 0
+
+    def ensures_appended(self, method, args, kwargs, result):
+        rs = self._requests._requests
+        n0 = old(len(self._requests._requests))
+        if not (same(result, self) and len(rs) == n0 + 1 and tlen() == old(tlen())
+                and seq_same(rs, seq_concat(old(tuple(self._requests._requests)), (rs[n0],)))):
+            return False
+        r = rs[n0]
+        return (class_is(r, Request) and same(r._method, method) and r._id is None
+                and carries(r, args, kwargs))
